@@ -29,11 +29,11 @@ structure Sendable (c : Challenge) (user uri : Bytes) : Prop where
   uri : uri.all isText = true
   opaq : c.opaq.all isText = true
 
-theorem colons_eq_colonJoin' : ∀ l : List Bytes, colons l = colonJoin l
+theorem colons_eq_colonJoinR : ∀ l : List Bytes, colons l = colonJoin l
   | [] => rfl
   | [_] => rfl
   | x :: y :: r => by
-    have := colons_eq_colonJoin' (y :: r)
+    have := colons_eq_colonJoinR (y :: r)
     simp only [colons, colonJoin, this, List.append_assoc, List.singleton_append]
 
 theorem isText_of_isQd {c : UInt8} (h : isQd c = true) : isText c = true := (qd_text h).1
@@ -99,7 +99,7 @@ theorem digest_accepted (H : Alg → Bytes → Bytes) (hH : ∀ a x, (H a x).all
             | nil => exact absurd hc e1
             | cons _ _ => rfl
           simp only [issuedOfC, hne, Bool.false_eq_true, if_false, e3, effAlg]
-      simp only [hsa, beq_self_eq_true, colons_eq_colonJoin']
+      simp only [hsa, beq_self_eq_true, colons_eq_colonJoinR]
       rcases hq with ⟨hq1, hq2, hs⟩ | ⟨hq1, hq2, hcont⟩
       · subst hq1
         have hqo : qopOptions c.qop = [] := by rw [hq2]; rfl
